@@ -313,6 +313,19 @@ def check_mapping_seq(descs, res, level="full"):
             case = {**base, "how": "palindrome/" + how}
             if not compare_mapping(mp, pal, pairs, 0, 2 * n, res, case, size, positions):
                 continue
+            # windows of a mirrored mapping: a mirror partner outside the window must not be jumped to
+            if how == "ctor" and (n == 1 or (n == 2 and level == "full")):
+                ok = True
+                for a in range(2 * n + 1):
+                    for b in range(a, 2 * n + 1):
+                        if (a, b) == (0, 2 * n):
+                            continue
+                        if not compare_mapping(mp.slice(a, b), pal, [p for p in pairs], a, b, res,
+                                               {**case, "how": f"palindrome/slice({a},{b})"}, size, positions):
+                            ok = False
+                            break
+                    if not ok:
+                        break
             # the law itself: forward and back returns every position, also inside deleted content
             for pos in positions:
                 for assoc in (-1, 1):
